@@ -291,25 +291,52 @@ struct Seen {
 
 fn check_published(c: &mut Case, s: &Sim, snap: &TimeSnapshot, now: ntp_proto::NtpTimestamp, seen: &mut Seen) {
     c.inc("root_dispersion_checked");
-    let (dt, v) = root_variance_at(snap, ts_to_u64(now));
+    let (dt, v_raw) = root_variance_at(snap, ts_to_u64(now));
     if dt < 0.0 {
         seen.backward_pub = true;
         c.inc("root_dispersion_before_base_time");
     }
+    if !(v_raw >= 0.0) {
+        // the raw polynomial is negative / NaN here (evaluation before the base time after a backward
+        // step, or a variance that rounding left a hair below zero): counted, and it is exactly the
+        // situation in which the real conversion below must not produce a NaN
+        c.inc("root_dispersion_raw_polynomial_negative");
+    }
     let when = if dt >= 0.0 { "at-or-after-base-time" } else { "before-base-time" };
+    // What is published is the value returned by the real conversion. A NaN inside it is invisible in
+    // the fixed-point result of the ship build (it becomes 0) but trips the debug assertion of
+    // NtpDuration::from_seconds in the strict build, which runs the same cases: no_panic catches it there.
+    // Independently of the build, the radicand the documented formula uses (time since the base clamped
+    // at zero, variance clamped at zero) must be a finite number, i.e. no snapshot field is NaN/inf.
+    let t = dt.max(0.0);
+    let v = (snap.root_variance_base + t * snap.root_variance_linear + t * t * snap.root_variance_quadratic + t * t * t * snap.root_variance_cubic).max(0.0);
     flag!(
         c,
         s,
         seen,
-        v.is_finite() && v >= 0.0,
+        v.is_finite(),
         format!("publish/root-dispersion-not-finite/{when}"),
         format!("root dispersion published {dt} s after the snapshot's base time is sqrt({v:e}): not a finite number"),
         json!({"dt": dt, "variance": format!("{v:e}"), "snapshot": snapshot_json(snap)})
     );
-    // the real conversion (panics in the strict build when fed a NaN)
     let snap = *snap;
     let label = format!("TimeSnapshot::root_dispersion/{when}");
-    c.no_panic(&label, || json!({"dt": dt, "snapshot": snapshot_json(&snap), "history": s.describe()}), || snap.root_dispersion(now));
+    let got = c.no_panic(&label, || json!({"dt": dt, "snapshot": snapshot_json(&snap), "history": s.describe()}), || snap.root_dispersion(now));
+    if let Some(d) = got {
+        // the published dispersion is a standard deviation: never negative, and not zero while the
+        // (clamped) variance is clearly positive (a NaN squashed to 0 by the fixed-point cast in ship)
+        let raw = ntp_proto::verif::misc::dur_to_i64(d);
+        let hidden_nan = raw == 0 && v.is_finite() && v.sqrt() * UNIT >= 2.0;
+        flag!(
+            c,
+            s,
+            seen,
+            raw >= 0 && !hidden_nan,
+            format!("publish/root-dispersion-wrong/{when}"),
+            format!("published root dispersion is {raw} units while the variance is {v:e} (expected about {:e} units)", v.sqrt() * UNIT),
+            json!({"dt": dt, "raw": raw, "variance": format!("{v:e}"), "snapshot": snapshot_json(&snap)})
+        );
+    }
 }
 
 fn judge(c: &mut Case, s: &Sim, info: &StepInfo, seen: &mut Seen) {
@@ -355,9 +382,18 @@ fn judge(c: &mut Case, s: &Sim, info: &StepInfo, seen: &mut Seen) {
             What::ErrorEstimate(_, _) => {
                 // the estimate handed over is sqrt(root_variance_base) of the snapshot returned by this call
                 c.inc("error_estimates_checked");
-                if let Some(t) = info.update.as_ref().and_then(|u| u.snapshot) {
+                // The argument is a fixed-point duration: a NaN computed on the way is invisible in the ship
+                // build (it becomes 0) and panics in the strict build (caught as panic/... above). What can be
+                // judged in both builds: the value handed over is not negative, and it is not zero while the
+                // snapshot's variance (clamped at zero, as the published dispersion is) is clearly positive.
+                if let (What::ErrorEstimate(est, _), Some(t)) = (&call.what, info.update.as_ref().and_then(|u| u.snapshot)) {
                     let v = t.root_variance_base;
-                    flag!(c, s, seen, v.is_finite() && v >= 0.0, "clock/error-estimate-not-finite", format!("error_estimate_update received sqrt({v:e})"), snapshot_json(&t));
+                    if !(v >= 0.0) {
+                        c.inc("note_root_variance_base_negative_or_nan");
+                    }
+                    let vc = v.max(0.0);
+                    let hidden_nan = *est == 0 && vc.is_finite() && vc.sqrt() * UNIT >= 2.0;
+                    flag!(c, s, seen, vc.is_finite() && *est >= 0 && !hidden_nan, "clock/error-estimate-not-finite", format!("error_estimate_update received {est} units for a variance of {v:e}"), snapshot_json(&t));
                 }
             }
             What::Status(_) => seen.leap = true,
